@@ -158,12 +158,35 @@ def write_artifact(prop, name, art, v):
     return {"rule": v.rule, "msg": v.msg, "detail": jsonable(v.detail), "replay": path, "steps": len(art["trace"])}
 
 
+def enum_violation(prop, name, module, case, rule, msg, **detail):
+    """Violation record + replay artefact for enumeration-style checks (pure functions): the artefact holds the failing input;
+    `run.py replay` calls <module>.replay_case(case) which must return a list of (rule, msg) still failing."""
+    from engine.explore import Violation
+    v = Violation(rule, msg, **detail)
+    art = {"property": prop, "module": module, "config": name, "kind": "enum", "case": jsonable(case), "violation": v.as_dict(), "trace": []}
+    return write_artifact(prop, name, art, v)
+
+
+def known_filter(prop, name, rule, detail):
+    """for enumeration checks: returns the known-finding entry matching (rule, detail) or None"""
+    from engine.explore import KnownFindings, Violation
+    kf = KnownFindings(KNOWN_PATH, prop)
+    v = Violation(rule, "", **detail)
+    return kf.match(name, v)
+
+
 def replay_artifact(path):
     """`run.py replay <file>`: re-executes an artefact without the explorer (environment + Migen evaluator only)."""
     setup_path()
     from engine import explore
     art = json.load(open(path))
     mod = importlib.import_module(art["module"])
+    if art["kind"] == "enum":
+        still = mod.replay_case(art["case"])
+        for rule, msg in still: print("%s: %s" % (rule, msg))
+        if any(rule == art["violation"]["rule"] for rule, _ in still):
+            print("VIOLATION property=%s replay=%s" % (art["property"], path)); return 1
+        print("replay: violation not reproduced (property holds on this input in the current tree)"); return 0
     h = getattr(mod, art["factory"])(**art["kwargs"])
     h.name = art["config"]
     trace = [tuplify(x) for x in art["trace"]]
